@@ -615,3 +615,104 @@ Example duty_forwards_genuine_only :
   quotes_verification K (timestamp q0 + 5 * NS) [0; 7] 7 [([0; 7], mine); ([0; 5], q0); ([0; 5], forged)]
   = Some [([0; 5], q0)].
 Proof. vm_compute. reflexivity. Qed.
+
+(* ================================================================ bad_nodes and the QuoteVerification arm *)
+Lemma issue_constants_ok :
+  Consts.issue_retention_secs = 300 /\ Consts.issue_list_cap = 10 /\
+  Consts.issue_rate_limit_secs = 10 /\ Consts.issue_strikes = 3.
+Proof. repeat split; reflexivity. Qed.
+
+Lemma bn_lookup_upsert_same p e bn : bn_lookup p (bn_upsert p e bn) = Some e.
+Proof.
+  induction bn as [|[p' e'] bn IH]; cbn [bn_upsert bn_lookup].
+  - now rewrite N.eqb_refl.
+  - destruct (N.eqb_spec p p') as [->|Hne]; cbn [bn_lookup].
+    + now rewrite N.eqb_refl.
+    + destruct (N.eqb_spec p p'); [contradiction|exact IH].
+Qed.
+
+Lemma bn_lookup_upsert_other p p' e bn : p' <> p -> bn_lookup p' (bn_upsert p e bn) = bn_lookup p' bn.
+Proof.
+  intros Hne. induction bn as [|[p0 e0] bn IH]; cbn [bn_upsert bn_lookup].
+  - destruct (N.eqb_spec p' p); [contradiction|reflexivity].
+  - destruct (N.eqb_spec p p0) as [->|H0]; cbn [bn_lookup].
+    + destruct (N.eqb_spec p' p0); [contradiction|reflexivity].
+    + destruct (N.eqb_spec p' p0); [reflexivity|exact IH].
+Qed.
+
+(* a quote is skipped exactly when its peer is already considered bad -- an entry in bad_nodes
+   (issues on record) is not enough *)
+Lemma skip_only_if_bad_lemma now st p q :
+  snd (handle_quote now st p q) = None <-> peer_is_bad (d_bad st) p = true.
+Proof.
+  unfold handle_quote. destruct (peer_is_bad (d_bad st) p); cbn [snd].
+  - tauto.
+  - destruct (verify_peer_quote now (d_hist st) p q). cbn [snd]. split; discriminate.
+Qed.
+
+Lemma skipped_quote_changes_nothing now st p q :
+  peer_is_bad (d_bad st) p = true -> fst (handle_quote now st p q) = st.
+Proof. intros H. unfold handle_quote. now rewrite H. Qed.
+
+(* whatever issues a peer has on record, while it is not considered bad a quote that is at least as
+   new as its reference and reports less than it is flagged *)
+Lemma not_bad_regression_flagged_lemma now st p q ref :
+  peer_is_bad (d_bad st) p = false -> h_lookup p (d_hist st) = Some ref ->
+  timestamp ref <= timestamp q -> reports_less q ref ->
+  snd (handle_quote now st p q) = Some true.
+Proof.
+  intros Hb Hr T Less. unfold handle_quote. rewrite Hb. unfold verify_peer_quote. rewrite Hr.
+  destruct (historical_verify now now ref q) eqn:Hv; cbn [negb snd]; [|reflexivity]. exfalso.
+  destruct (hv_true_cases _ _ _ _ Hv) as [_ Hnew]. destruct (Hnew T) as [L R].
+  destruct Less as [Less|Less]; lia.
+Qed.
+
+(* and the flag is put on record as a BadQuoting issue (subject to record_node_issue's rate limit) *)
+Lemma flagged_quote_is_recorded now st p q :
+  snd (handle_quote now st p q) = Some true ->
+  d_bad (fst (handle_quote now st p q)) = record_node_issue (d_clk st) (d_bad st) p BAD_QUOTING.
+Proof.
+  unfold handle_quote. destruct (peer_is_bad (d_bad st) p); [discriminate|].
+  destruct (verify_peer_quote now (d_hist st) p q) as [h1 f]. cbn [fst snd d_bad].
+  intros E. injection E as ->. reflexivity.
+Qed.
+
+(* recording an issue turns a peer bad only through three strikes of one kind, and never touches
+   another peer *)
+Lemma bad_needs_three_strikes_lemma clk bn p k :
+  peer_is_bad bn p = false -> peer_is_bad (record_node_issue clk bn p k) p = true ->
+  exists iv, bn_lookup p (record_node_issue clk bn p k) = Some (iv, true) /\ three_strikes iv = true.
+Proof.
+  unfold peer_is_bad at 1 2, record_node_issue. intros Hb.
+  destruct (bn_lookup p bn) as [[iv bad]|] eqn:L.
+  - subst bad. rewrite !bn_lookup_upsert_same. intros H. eexists. split; [now rewrite H|exact H].
+  - rewrite !bn_lookup_upsert_same. intros H. eexists. split; [now rewrite H|exact H].
+Qed.
+
+Lemma record_issue_other_peer clk bn p k p' :
+  p' <> p -> bn_lookup p' (record_node_issue clk bn p k) = bn_lookup p' bn.
+Proof.
+  intros Hne. unfold record_node_issue.
+  destruct (match bn_lookup p bn with Some e => e | None => ([], false) end) as [iv bad].
+  destruct bad; now rewrite bn_lookup_upsert_other.
+Qed.
+
+(* the scenario of seeded change C13-8: reference quote, an unrelated issue, 11 s later a quote that
+   reports fewer payments: flagged, and recorded *)
+Example unrelated_issue_does_not_hide_regression :
+  let st := fold_left driver_do
+              [DQuote (1000 * NS) 1 (mq 900 5 10); DIssue 1 0; DAge 11] driver_init in
+  peer_is_bad (d_bad st) 1 = false /\
+  snd (handle_quote (1011 * NS) st 1 (mq 950 5 7)) = Some true /\
+  observe (fst (handle_quote (1011 * NS) st 1 (mq 950 5 7))) 1 = ([0; 2], false, Some (900 * NS)).
+Proof. vm_compute. repeat split; reflexivity. Qed.
+
+(* three BadQuoting strikes (more than ten seconds apart) make the peer bad; after that its quotes
+   are skipped and the reference stops moving *)
+Example three_strikes_then_skipped :
+  let st := fold_left driver_do
+              [DQuote (1000 * NS) 1 (mq 900 5 10); DQuote (1000 * NS) 1 (mq 910 5 9); DAge 11;
+               DQuote (1011 * NS) 1 (mq 920 5 8); DAge 11; DQuote (1022 * NS) 1 (mq 930 5 7)] driver_init in
+  observe st 1 = ([2; 2; 2], true, Some (900 * NS)) /\
+  snd (handle_quote (1030 * NS) st 1 (mq 990 9 99)) = None.
+Proof. vm_compute. split; reflexivity. Qed.
